@@ -179,6 +179,8 @@ func parseExpressionLv1(p *ParserZH, cfg syntax.EqMarkConfig) syntax.Expression 
 	var parseTail func(syntax.Expression) syntax.Expression
 
 	parseTail = func(el syntax.Expression) syntax.Expression {
+		// (an operand chain builds a tree as deep as it is long)
+		defer p.enterNesting()()
 		if match, tk := p.tryConsume(TypeLogicOrW); match {
 			exprR := parseExpressionLv2(p, cfg)
 			finalExpr := &syntax.LogicExpr{
@@ -201,6 +203,8 @@ func parseExpressionLv2(p *ParserZH, cfg syntax.EqMarkConfig) syntax.Expression 
 	var parseTail func(syntax.Expression) syntax.Expression
 
 	parseTail = func(el syntax.Expression) syntax.Expression {
+		// (an operand chain builds a tree as deep as it is long)
+		defer p.enterNesting()()
 		if match, tk := p.tryConsume(TypeLogicAndW); match {
 			exprR := parseExpressionLv3(p, cfg)
 			finalExpr := &syntax.LogicExpr{
@@ -310,6 +314,8 @@ func ParseArithExpr(p *ParserZH) syntax.Expression {
 	var parseTail func(syntax.Expression) syntax.Expression
 
 	parseTail = func(el syntax.Expression) syntax.Expression {
+		// (an operand chain builds a tree as deep as it is long)
+		defer p.enterNesting()()
 		if match, tk := p.tryConsume(TypePlus, TypeMinus); match {
 			exprR := parseArithMulDivExpr(p)
 
@@ -336,6 +342,8 @@ func parseArithMulDivExpr(p *ParserZH) syntax.Expression {
 	var parseTail func(syntax.Expression) syntax.Expression
 
 	parseTail = func(el syntax.Expression) syntax.Expression {
+		// (an operand chain builds a tree as deep as it is long)
+		defer p.enterNesting()()
 		if match, tk := p.tryConsume(TypeMultiply, TypeDivision, TypeIntDivMark, TypeModuloMark); match {
 			exprR := ParseMemberExpr(p)
 
@@ -411,6 +419,8 @@ func ParseMemberExpr(p *ParserZH) syntax.Expression {
 	}
 
 	memberTailParser = func(expr syntax.Expression) syntax.Expression {
+		// (a member / index chain builds a tree as deep as it is long)
+		defer p.enterNesting()()
 		mExpr := &syntax.MemberExpr{}
 		// default rootType is RootTypeExpr
 		mExpr.RootType = syntax.RootTypeExpr
